@@ -109,7 +109,14 @@ func (d *Decoder) Decode(bts []byte) (interface{}, error) {
 }
 
 //ReadObject read new object from reader
-func (d *Decoder) ReadObject() (interface{}, error) {
+func (d *Decoder) ReadObject() (obj interface{}, err error) {
+	// assembling decoded values by reflection panics when the input's types do not fit the
+	// destination types; a decode call reports that as an error instead of crashing the caller
+	defer func() {
+		if r := recover(); r != nil {
+			obj, err = nil, newCodecError("ReadObject", "invalid input: %v", r)
+		}
+	}()
 	return EnsureInterface(d.ReadData())
 }
 
